@@ -29,7 +29,7 @@ ASSUMPTIONS = [
     '(the map contract); threads/processes and ensembles are outside the claim',
 ]
 BOUNDS = {'quick': dict(setters='<=3 (6 orders)', map_permutations=24, steps=2), 'thorough': dict(setters='<=4 (24 orders)', map_permutations=24, steps=2)}
-BUDGET = {'quick': 500, 'thorough': 3600}
+BUDGET = {'quick': 1800, 'thorough': 3600}
 
 SETTERS = ('SetInitialPoints', 'SetStrictRanges', 'SetConstraints', 'SetPenalty', 'SetEvaluationLimits', 'SetGenerationMonitor', 'SetTermination')
 
